@@ -297,6 +297,15 @@ Proof.
   intros. apply (fold_left_map_commute (map rn_iv)). intros a x. rewrite geti_rn, rn_iv_set_type, upd_map. reflexivity.
 Qed.
 
+Lemma remove_first_cls_rn : forall s k l, remove_first_cls (rn_sys s) (f k) l = remove_first_cls s k l.
+Proof.
+  intros s k l. induction l as [|x r IH]; cbn [remove_first_cls]; [reflexivity|].
+  rewrite get_var_rn. cbn [rn_var v_cls]. rewrite eqb_f, IH. reflexivity.
+Qed.
+
+Lemma dep_remove_rn : forall fx s v d, dep_remove fx (rn_sys s) (rn_iv v) d = dep_remove fx s v d.
+Proof. intros. unfold dep_remove. cbn [rn_iv iv_cls iv_var]. rewrite remove_first_cls_rn. reflexivity. Qed.
+
 Lemma check_rn : forall s nla st e,
   check (rn_sys s) nla (rn_cs st) (rn_ieq e) = (let '(st', e', b) := check s nla st e in (rn_cs st', rn_ieq e', b)).
 Proof.
@@ -349,9 +358,9 @@ Proof.
   match goal with |- context [type_variables s ?a ?b ?c ?d ?e0 ?f0] => destruct (type_variables s a b c d e0 f0) as [[st2 unk] ok] end.
   destruct ok; cbn [negb]; [|reflexivity].
   cbn [rn_cs cs_ivs].
-  assert (Hdeps : forall d, fold_left (fun d p => remove_first (iv_var (geti (map rn_iv (cs_ivs st2)) p)) d) unk d
-                            = fold_left (fun d p => remove_first (iv_var (geti (cs_ivs st2) p)) d) unk d).
-  { induction unk as [|u r IHu]; intro d; cbn; [reflexivity|]. rewrite geti_rn. apply IHu. }
+  assert (Hdeps : forall d, fold_left (fun d p => dep_remove dependency_fix (rn_sys s) (geti (map rn_iv (cs_ivs st2)) p) d) unk d
+                            = fold_left (fun d p => dep_remove dependency_fix s (geti (cs_ivs st2) p) d) unk d).
+  { induction unk as [|u r IHu]; intro d; cbn [fold_left]; [reflexivity|]. rewrite geti_rn, dep_remove_rn. apply IHu. }
   rewrite Hdeps. clear Hdeps.
   destruct left_var as [p|]; [|reflexivity].
   rewrite geti_rn.
@@ -517,20 +526,27 @@ Proof.
   destruct (atype_of v) as [t|]; [|apply IH]. destruct t; rewrite IH; reflexivity.
 Qed.
 
-Lemma make_aeq_rn : forall ivs es avs j,
-  make_aeq (map rn_iv ivs) (map rn_ieq es) avs j = make_aeq ivs es avs j.
+Lemma dep_lookup_rn : forall fx s ivs avs d, dep_lookup fx (rn_sys s) (map rn_iv ivs) avs d = dep_lookup fx s ivs avs d.
+Proof. intros. unfold dep_lookup. rewrite ivar_of_rn. reflexivity. Qed.
+
+Lemma make_aeq_rn : forall s ivs es avs j,
+  make_aeq (rn_sys s) (map rn_iv ivs) (map rn_ieq es) avs j = make_aeq s ivs es avs j.
 Proof.
-  intros. unfold make_aeq. rewrite gete_rn. cbn [rn_ieq ie_unknown ie_type ie_deps ie_id ie_nla ie_sibs].
+  intros. unfold make_aeq.
+  assert (Hl : forall l acc, fold_left (fun acc d => match dep_lookup dependency_fix (rn_sys s) (map rn_iv ivs) avs d with Some a => dedup_app acc (av_eqs a) | None => acc end) l acc
+                          = fold_left (fun acc d => match dep_lookup dependency_fix s ivs avs d with Some a => dedup_app acc (av_eqs a) | None => acc end) l acc).
+  { induction l as [|d r IHl]; intro acc; cbn [fold_left]; [reflexivity|]. rewrite dep_lookup_rn. apply IHl. } rewrite gete_rn. cbn [rn_ieq ie_unknown ie_type ie_deps ie_id ie_nla ie_sibs].
   assert (Hd : flat_map (fun p => iv_deps (geti (map rn_iv ivs) p)) (ie_unknown (gete es j))
              = flat_map (fun p => iv_deps (geti ivs p)) (ie_unknown (gete es j))).
   { induction (ie_unknown (gete es j)) as [|p r IHr]; cbn; [reflexivity|]. rewrite geti_rn, IHr. reflexivity. }
-  rewrite Hd. reflexivity.
+  rewrite Hd. destruct (ie_type (gete es j)); cbn [rn_ieq ie_type];
+    destruct (forallb _ _); rewrite ?Hl; reflexivity.
 Qed.
 
 Lemma filter_map_ext : forall {A B} (p q : A -> option B) l, (forall x, p x = q x) -> filter_map p l = filter_map q l.
 Proof. intros A B p q l H. induction l as [|x r IH]; cbn; [reflexivity|]. rewrite H, IH. reflexivity. Qed.
 
-Lemma package_rn : forall ty voi ivs es, package ty voi (map rn_iv ivs) (map rn_ieq es) = package ty voi ivs es.
+Lemma package_rn : forall s ty voi ivs es, package (rn_sys s) ty voi (map rn_iv ivs) (map rn_ieq es) = package s ty voi ivs es.
 Proof.
   intros. unfold package. rewrite map_length.
   assert (Hc : filter (fun p => vtype_eqb (iv_type (geti (map rn_iv ivs) p)) VConstant) (seq 0 (length ivs))
@@ -540,8 +556,8 @@ Proof.
   rewrite (map_ext (new_var_eq (map rn_iv ivs)) (fun p => rn_ieq (new_var_eq ivs p))) by (intro; apply new_var_eq_rn).
   rewrite <- (map_map (new_var_eq ivs) rn_ieq), <- map_app.
   rewrite make_avars_rn, map_length.
-  match goal with |- context [filter_map (make_aeq (map rn_iv ivs) (map rn_ieq ?e3) ?avs) ?l] =>
-    rewrite (filter_map_ext (make_aeq (map rn_iv ivs) (map rn_ieq e3) avs) (make_aeq ivs e3 avs) l (make_aeq_rn ivs e3 avs)) end.
+  match goal with |- context [filter_map (make_aeq (rn_sys s) (map rn_iv ivs) (map rn_ieq ?e3) ?avs) ?l] =>
+    rewrite (filter_map_ext (make_aeq (rn_sys s) (map rn_iv ivs) (map rn_ieq e3) avs) (make_aeq s ivs e3 avs) l (make_aeq_rn s ivs e3 avs)) end.
   rewrite map_map. reflexivity.
 Qed.
 
